@@ -110,8 +110,9 @@ void HttpServer::serve(Socket client)
 					if (range.startsWith("bytes=") && !range.contains(',')) // no multiple ranges
 					{
 						Array<String> parts = range.substr(6).split('-');
-						Long first = parts[0];
-						Long last = parts.length() > 1 ? (Long)parts[1] : 0; // "bytes=5" has no second part
+						// more than 18 digits do not fit a Long (the conversion would wrap modulo 2^64): such a position is beyond any file
+						Long first = parts[0].length() > 18 ? 2147483647 : (Long)parts[0];
+						Long last = parts.length() > 1 ? (parts[1].length() > 18 ? 2147483647 : (Long)parts[1]) : 0; // "bytes=5" has no second part
 						// a position that does not fit an int is beyond any file served here: unsatisfiable, not taken modulo 2^32
 						int begin = first > 2147483647 ? 2147483647 : (int)first;
 						int end = last > 2147483647 ? 2147483647 : (int)last;
